@@ -545,6 +545,154 @@ def _ref_binop(ex, callee, argv):
     return ex.binop(op, a, b_)
 
 
+# ---------------------------------------------------------------- further Vec / slice / Option helpers (no closures)
+def _concv(n, what):
+    if not n.conc():
+        raise Unsupported("%s with a symbolic argument" % what)
+    return n.v
+
+
+def _vec_truncate(ex, callee, argv):
+    v = ex.load(argv[0]); n = _concv(argv[1], "Vec::truncate")
+    if n < len(v.f):
+        del v.f[n:]
+    return UNIT
+
+
+def _vec_clear(ex, callee, argv):
+    del ex.load(argv[0]).f[:]
+    return UNIT
+
+
+def _vec_pop(ex, callee, argv):
+    v = ex.load(argv[0])
+    return some(v.f.pop()) if v.f else NONE()
+
+
+def _vec_remove(ex, callee, argv):
+    v = ex.load(argv[0]); i = _concv(argv[1], "Vec::remove")
+    if i >= len(v.f):
+        ex.ctx.oblige("panic", False, "Vec::remove index %d out of bounds (len %d)" % (i, len(v.f)), "Vec::remove")
+        raise Infeasible()
+    return v.f.pop(i)
+
+
+def _vec_extend(ex, callee, argv):
+    """Vec::extend from a slice reference, a Vec / array by value, or a slice iterator"""
+    v = ex.load(argv[0]); src = argv[1]
+    if isinstance(src, Ref):
+        sl, ss, sn = _as_list_ref(ex, src)
+        v.f.extend(deep(x) for x in sl[ss:ss + sn])
+    elif isinstance(src, Agg) and src.name in ("Vec", "array", "slice") or (isinstance(src, Agg) and src.variant is None and src.name not in ("Iter",)):
+        v.f.extend(deep(x) for x in src.f)
+    else:
+        raise Unsupported("Vec::extend from %r" % (src,))
+    return UNIT
+
+
+def _slice_first_last(ex, callee, argv):
+    sl, ss, sn = _as_list_ref(ex, argv[0])
+    if sn == 0:
+        return NONE()
+    i = ss if callee.endswith("first") else ss + sn - 1
+    r = argv[0]
+    return some(Ref(r.cell, r.path + (i,), None, r.mut))
+
+
+def _slice_split_at(ex, callee, argv):
+    r = argv[0]; k = _concv(argv[1], "split_at")
+    sl, ss, sn = _as_list_ref(ex, r)
+    if k > sn:
+        ex.ctx.oblige("panic", False, "split_at: mid %d > len %d" % (k, sn), "split_at")
+        raise Infeasible()
+    return Agg([Ref(r.cell, r.path, (ss, k), r.mut), Ref(r.cell, r.path, (ss + k, sn - k), r.mut)], name="tuple")
+
+
+def _slice_reverse(ex, callee, argv):
+    sl, ss, sn = _as_list_ref(ex, argv[0])
+    sl[ss:ss + sn] = sl[ss:ss + sn][::-1]
+    return UNIT
+
+
+def _slice_swap(ex, callee, argv):
+    sl, ss, sn = _as_list_ref(ex, argv[0])
+    i, j = _concv(argv[1], "swap"), _concv(argv[2], "swap")
+    if i >= sn or j >= sn:
+        ex.ctx.oblige("panic", False, "swap index out of bounds", "swap")
+        raise Infeasible()
+    sl[ss + i], sl[ss + j] = sl[ss + j], sl[ss + i]
+    return UNIT
+
+
+def _slice_fill(ex, callee, argv):
+    sl, ss, sn = _as_list_ref(ex, argv[0])
+    for i in range(sn):
+        sl[ss + i] = deep(argv[1])
+    return UNIT
+
+
+def _slice_prefix_cmp(ex, callee, argv):
+    al, as_, an = _as_list_ref(ex, argv[0])
+    bl, bs, bn = _as_list_ref(ex, argv[1])
+    if bn > an:
+        return Sc(False, "bool")
+    xs = al[as_:as_ + bn] if callee.endswith("starts_with") else al[as_ + an - bn:as_ + an]
+    res = Sc(True, "bool")
+    for x, y in zip(xs, bl[bs:bs + bn]):
+        res = ex.binop("BitAnd", res, ex.binop("Eq", x, y))
+    return res
+
+
+def _slice_contains(ex, callee, argv):
+    al, as_, an = _as_list_ref(ex, argv[0])
+    y = argv[1]
+    while isinstance(y, Ref):
+        y = ex.load(y)
+    res = Sc(False, "bool")
+    for x in al[as_:as_ + an]:
+        res = ex.binop("BitOr", res, ex.binop("Eq", x, y))
+    return res
+
+
+def _opt_pred(ex, callee, argv):
+    v = argv[0]
+    while isinstance(v, Ref):
+        v = ex.load(v)
+    if not (isinstance(v, Agg) and isinstance(v.variant, int)):
+        raise Unsupported("%s on %r" % (callee, v))
+    meth = callee.split("::")[-1]
+    is_opt = callee.startswith("Option")
+    good = (v.variant == 1) if is_opt else (v.variant == 0)
+    return Sc(good if meth in ("is_some", "is_ok") else not good, "bool")
+
+
+def _unwrap_or(ex, callee, argv):
+    v = argv[0]
+    if isinstance(v, Agg) and isinstance(v.variant, int):
+        good = (v.variant == 1) if callee.startswith("Option") else (v.variant == 0)
+        return v.f[0] if good else argv[1]
+    raise Unsupported("unwrap_or of %r" % (v,))
+
+
+def _result_ok(ex, callee, argv):
+    v = argv[0]
+    if isinstance(v, Agg) and isinstance(v.variant, int):
+        return some(v.f[0]) if v.variant == 0 else NONE()
+    raise Unsupported("Result::ok of %r" % (v,))
+
+
+def _checked_arith(ex, callee, argv):
+    m = re.match(r"core::num::<impl (\w+)>::checked_(add|sub|mul)$", callee)
+    op = {"add": "AddWithOverflow", "sub": "SubWithOverflow", "mul": "MulWithOverflow"}[m.group(2)]
+    r = ex.binop(op, argv[0], argv[1])
+    ov = r.f[1]
+    if ov.conc():
+        return NONE() if ov.v else some(r.f[0])
+    if ex.ctx.decide(ex.dom.boolterm(ov)):
+        return NONE()
+    return some(r.f[0])
+
+
 def _get_or_insert_with(ex, callee, argv):
     """Option::get_or_insert_with(&mut self, f): keep a present value, otherwise store f()"""
     r = argv[0]
@@ -680,6 +828,15 @@ TABLE = [
     (re.compile(r"^<Vec<u8> as WriteBytesExt>::write_u8$"), _write_u8),
     (re.compile(r"^slice::<impl \[Vec<\w+>\]>::concat$"), _concat_vecs),
     (re.compile(r"^<&?\w+ as (Add|Sub|Mul|Shr|Shl|BitAnd|BitOr|BitXor)<&?\w+>>::\w+$"), _ref_binop),
+    (re.compile(r"^Vec::truncate$"), _vec_truncate), (re.compile(r"^Vec::clear$"), _vec_clear), (re.compile(r"^Vec::pop$"), _vec_pop),
+    (re.compile(r"^Vec::remove$"), _vec_remove), (re.compile(r"^<Vec<.*> as Extend<.*>>::extend$"), _vec_extend),
+    (re.compile(r"^core::slice::<impl \[.*\]>::(first|last)$"), _slice_first_last), (re.compile(r"^core::slice::<impl \[.*\]>::split_at$"), _slice_split_at),
+    (re.compile(r"^core::slice::<impl \[.*\]>::reverse$"), _slice_reverse), (re.compile(r"^core::slice::<impl \[.*\]>::swap$"), _slice_swap),
+    (re.compile(r"^core::slice::<impl \[.*\]>::fill$"), _slice_fill), (re.compile(r"^core::slice::<impl \[.*\]>::(starts_with|ends_with)$"), _slice_prefix_cmp),
+    (re.compile(r"^core::slice::<impl \[.*\]>::contains$"), _slice_contains),
+    (re.compile(r"^(Option|Result)::(is_some|is_none|is_ok|is_err)$"), _opt_pred), (re.compile(r"^(Option|Result)::unwrap_or$"), _unwrap_or),
+    (re.compile(r"^Result::ok$"), _result_ok), (re.compile(r"^(Option|Result)::expect$"), _unwrap),
+    (re.compile(r"^core::num::<impl \w+>::checked_(add|sub|mul)$"), _checked_arith),
     (re.compile(r"^Option::unwrap_or_else$"), _unwrap_or_else),
     (re.compile(r"^Option::get_or_insert_with$"), _get_or_insert_with),
     (re.compile(r"^<(Result|Option)<.*> as Try>::branch$"), _try_branch),
